@@ -121,7 +121,7 @@ def validate(rep, files):
         by = {}
         nt = set()
         nd = 0
-        sampled = False
+        want = {('boundary', 'd'), ('zero-run', 'f')}
         for ln in lines:
             r = json.loads(ln)
             rep.cov['evaluations'] += 2 + len(r.get('tp', []))
@@ -129,10 +129,13 @@ def validate(rep, files):
             nd += r['k'] == 'd'
             if nontrivial(r):
                 nt.add((r['k'], tuple(r['b'])))
-            if not sampled and r['src'] == 'boundary' and r['k'] == 'd':
-                sampled = True
-                rep.sample(dict(cfg=r['cfg'], bits=hex_of(r), value=repr(value_of(r)), exact_digits=''.join(map(str, r['d'][:20])), e=r['e'],
-                                ts=text_of(r, 'ts', 1), tr=text_of(r, 'tr', 1)), cap=4)
+            if (r['src'], r['k']) in want:
+                want.discard((r['src'], r['k']))
+                x = dict(cfg=r['cfg'], type=r['k'], bits=hex_of(r), value=repr(value_of(r)), exact_digits=''.join(map(str, r['d'][:20])), e=r['e'],
+                         ts=text_of(r, 'ts', 1), tr=text_of(r, 'tr', 1))
+                if 'tp' in r:
+                    x['tp'] = [text_of(r, 'tp', p) for p in range(1, 16)]
+                rep.sample(x, cap=4)
         rep.cov['distinct_nontrivial'] += len(nt)
         rep.cov['driver_runs'].append(dict(build=cfg, source=label, values=n, doubles=nd, floats=n - nd, by_generator=by))
     return nviol
@@ -159,6 +162,7 @@ def run(pid, tier):
     th = threading.Thread(target=mpart)
     th.start()
     nrand, estride = (1200, 13) if tier == 'quick' else (45000, 1)
+    rep.cov['constants'] = dict(random_bit_patterns=nrand, exponent_stride_outside_central_window=estride, chunk_lines=CHUNK)
     files = []
     for cfg, build in BUILDS:
         exe = lib.build('drv_gfmt', ['drv_gfmt.c'], config=build)
